@@ -1,5 +1,6 @@
 import Lean.Data.Json
 import MC.Spec.Variant
+import MC.Model.Preproc
 open Lean
 
 namespace MC.Driver
@@ -35,7 +36,16 @@ def handleVariant (op : String) (req : Json) : Option Json :=
       Json.arr #[toJson (ofCps v.1), natsJ (MC.Spec.Variant.keysOf MC.Variant.tables v.2)]).toArray
   | _ => none
 
-def handlers : List (String → Json → Option Json) := [handleVariant]
+/-- C17 ops -/
+def handlePreproc (op : String) (req : Json) : Option Json :=
+  match op with
+  | "preproc" =>
+    some <| match MC.Preproc.preprocess MC.Preproc.config (cps (getStr req "text")) with
+      | .ok r => okJ (ofCps r)
+      | .error u => Json.mkObj [("r", "err"), ("kind", "unknown-entity"), ("name", ofCps u)]
+  | _ => none
+
+def handlers : List (String → Json → Option Json) := [handleVariant, handlePreproc]
 
 def handle (req : Json) : Json :=
   let op := getStr req "op"
